@@ -514,6 +514,9 @@ def fam_tree(seed, i):
         if o["op"] == "spawn":
             x = o["a"]
             s0 = [Y] * rng.choice([0, 1]) + reg_eff[x]
+            if rng.random() < 0.2:
+                # a node with a timer of its own: it is released with its parent all the same
+                s0 = s0 + [eff(rng.choice(["interval", "interval", "interval_with"]), rng.randint(1, 2), f"t_{x}")]
             if fault == "start_err" and x == "a1" and rng.random() < 0.5:
                 s0 = s0 + [eff("err")]
             o["cfg"]["sscr"] = [s0]
